@@ -124,7 +124,7 @@ def main():
             "name": "simkit",
             "path": "/verif/dst/simkit",
             "serves_properties": sorted(CLAIMED),
-            "kind_free_text": "deterministic simulation: seed -> explicit JSON plan (steps, per-step sub-seeds, fault annotations) -> single-process execution against the real library with simulated disk (SimFS), simulated RNG (SimRNG) and fake back-ends on the real base classes; reference-model oracles after every step, history checks at the end; ddmin minimisation; replay files; determinism self-test (second process + fresh interpreter under another PYTHONHASHSEED)",
+            "kind_free_text": "deterministic simulation: seed -> explicit JSON plan (steps, per-step sub-seeds, fault annotations) -> single-process execution against the real library with simulated disk (SimFS), simulated RNG (SimRNG) and fake back-ends on the real base classes; reference-model oracles after every step, history checks at the end; every run in its own forked child of a warmed-up worker (a run is a pure function of plan and code); ddmin minimisation; replay files; hung runs classified (library hang = violation); determinism self-test (second process + fresh interpreter under another PYTHONHASHSEED); known findings with narrow keys",
         }],
         "checks": checks,
         "not_applicable": na,
